@@ -71,6 +71,7 @@ class Spec3:
             self.alpha += [("ctrl", r, "FAKE_DROP %d" % n) for n in (0, 1, 2)]
             self.alpha += [("ctrl", r, "RFMUTE %d" % x) for x in (0, 1)]
         self.alpha += [("ctrl", 0, "FAKE_DROP 1 2"), ("ctrl", 2, "FAKE_DROP 2 2")]
+        self.alpha += [("ctrl", 1, "RFMUTE %d" % x) for x in (0, 1)]          # the sender's own mute
         self.alpha += [("burst", fn) for fn in ((0, 1, 2) if tier == "quick" else (0, 1, 2, 3, 2715647))]
         self.prefix = [(1, "RXTUNE %d" % F2), (1, "TXTUNE %d" % F1), (0, "RXTUNE %d" % F1), (0, "TXTUNE %d" % F2),
                        (2, "RXTUNE %d" % F1), (2, "TXTUNE %d" % F2), (0, "SETFORMAT %d" % v1), (2, "SETFORMAT %d" % v2),
